@@ -45,7 +45,20 @@ def run(spec, out):
 
     from vmon import boot, gen
 
-    b = boot.boot(order=spec.get("order"))
+    TEXTS = ("hh", "TR", "cd", "Pa", "ha", "min.", "nmi.", "kn", "Mm", "pt", "ft", "dB", "Gi", "au", "Th")
+
+    def between(name):
+        # a program that already parses unit texts while only some of the unit modules are imported
+        if spec.get("parse_between_imports"):
+            for text in TEXTS:
+                try:
+                    (m_.Unit.parse if rng.random() < 0.7 else (lambda t: m_.Quantity.parse("3 " + t)))(text)
+                    count("texts_parsed_between_imports")
+                except Exception:
+                    pass
+
+    import measured as m_
+    b = boot.boot(order=spec.get("order"), between=between)
     if b.errors:
         out["fatal"] = f"import errors {b.errors[:2]}"
         return
@@ -318,6 +331,15 @@ def run(spec, out):
             pass
         except Exception as e:
             out["probes"][key] = f"raise {type(e).__name__}"
+    # the same for unit *texts*: what a text parses to (its dimension) after everything is imported does not depend on
+    # what was parsed while only part of the modules were there
+    for text in TEXTS:
+        try:
+            u = Unit.parse(text)
+            out["probes"]["text:" + text] = list(u.dimension.exponents)[:base_width]
+            count("text_probes_evaluated")
+        except Exception as e:
+            out["probes"]["text:" + text] = f"raise {type(e).__name__}"
     Unit.__init__ = orig_init
 
 
